@@ -41,6 +41,17 @@ DefPct(s, n) ==
         IF ~HasLag(s, i, n) \/ s[i] = NULL \/ s[i - n] = NULL \/ s[i - n] = 0 THEN ENull
         ELSE EQ(QN(s[i] - s[i - n], s[i - n]))]
 
+\* ---- units of measurement (see Laws1.tla): shifting and differencing are homogeneous of degree 1
+\* in the unit the series AND the fill value are measured in, the percentage change of degree 0
+InUnitM(s, u) == [i \in 1..Len(s) |-> IF s[i] = NULL THEN NULL ELSE u * s[i]]
+UnitOf(x, u) == IF x = NULL THEN NULL ELSE u * x
+LagDeg == [shift |-> 1, diff |-> 1, pct |-> 0]
+LagHomogeneous(s, n, fill) ==
+    \A u \in {2, 3} :
+        /\ DefShift(InUnitM(s, u), n, UnitOf(fill, u)) = InUnitM(DefShift(s, n, fill), u)
+        /\ DefDiff(InUnitM(s, u), n, UnitOf(fill, u)) = InUnitM(DefDiff(s, n, fill), u)
+        /\ DefPct(InUnitM(s, u), n) = DefPct(s, n)
+
 \* nearest earlier / later element that is not masked, else the default
 \* masks: "null" is the library's is_none; "zero" is a second mask for the *_mask forms
 IsNull == "null"
